@@ -9,6 +9,7 @@ fn usage() -> ! {
 
 fn main() {
     avm::eng::install_panic_hook();
+    avm::eng::install_trace_logger();
     let args: Vec<String> = std::env::args().collect();
     if args.len() < 3 {
         usage();
